@@ -317,6 +317,8 @@ def check_property(spec: PropertySpec, tier="quick", seed=0, src_root="/repo/src
                             what="cover(requires) / cover(loop body) must be satisfiable and each canary (deliberately false postcondition) must NOT be provable"),
         functions_under_contract=fns,
         lemmas=[dict(name=r.target, status="proved" if r.ok else "failed") for r in reports if r.kind == "lemma"],
+        slowest=[dict(obligation=o.name, backend=o.result.solver, winning_attempt_s=(o.result.attempts[-1][2] if o.result.attempts else None), cumulative_s=round(o.result.time_s, 2))
+                 for o in sorted(discharged, key=lambda o: -(o.result.attempts[-1][2] if o.result.attempts else 0))[:12]],
         bounded_standins=standin_cov,
         samples=samples,
         not_decided=spec.not_decided,
